@@ -103,4 +103,12 @@ CHECKS.update({
  },
 })
 
+CHECKS.update({
+ "C19": {
+  "text": "Config.tla defines Effective(cfg) (documented meaning incl. defaults, rejection of invalid values / unknown keys / missing work_dir for CRL modes) and ProvisionOK(cfg) over the option space of both syntaxes, with Defaults, RejectUnknown, NoIgnoring, ValidProvisions as invariants; TLC computes the expectation for every chosen configuration; each is rendered as Caddy JSON and as a Caddyfile block, loaded with caddy.StrictUnmarshalJSON resp. UnmarshalCaddyfile + Provision, and every parsed field is compared with Effective(cfg) and across the syntaxes.",
+  "note": "Configurations: every single value and every single fault on two bases, every unknown-key place, modes without crl_config, plus seeded random valid combinations (250 quick / 6000 thorough) - not the full 10^5 product. Trusts TLC, the renderers of the harness and caddyfile.NewTestDispenser.",
+  "technique": "TLC-computed decision table (Config.tla) + differential replay of both configuration syntaxes",
+ },
+})
+
 PENDING = {}
